@@ -6,7 +6,7 @@ class N(Notifications):
     pass
 
 async def main():
-    d = tempfile.mkdtemp(prefix='c05', dir='/tmp/exp')
+    d = tempfile.mkdtemp(prefix='c05')
     chain = Chain(1)
     for i in range(8): chain.add_block(2)
     env = make_env(d)
